@@ -58,10 +58,10 @@ var depLocs = []depLoc{
 		w.Objs["F"].Book = map[string]map[string]int64{"a": {"x": 4}}
 		w.Objs["F"].KS = "a"
 	}},
-	{name: "json", isJSON: true, writers: []string{"J.n"}, readers: []string{"J.n"}, init: func(w *ref.World) {
+	{name: "json", isJSON: true, writers: []string{"J.n", `J["n"]`}, readers: []string{"J.n", `J["n"]`}, init: func(w *ref.World) {
 		w.JSON["J"] = map[string]interface{}{"n": 4.0, "o": map[string]interface{}{"n": 4.0}}
 	}},
-	{name: "jsonnested", isJSON: true, writers: []string{"J.o.n"}, readers: []string{"J.o.n"}, init: func(w *ref.World) {
+	{name: "jsonnested", isJSON: true, writers: []string{"J.o.n", `J.o["n"]`, `J["o"].n`}, readers: []string{"J.o.n", `J.o["n"]`, `J["o"].n`}, init: func(w *ref.World) {
 		w.JSON["J"] = map[string]interface{}{"n": 1.0, "o": map[string]interface{}{"n": 4.0}}
 	}},
 	{name: "toplevel", writers: []string{"N"}, readers: []string{"N"}, init: func(w *ref.World) { w.Vars["N"] = int64(4) }},
